@@ -19,9 +19,9 @@ fn text_of(v: &Value) -> String {
 
 fn lang_name(l: Language) -> &'static str { match l { Language::Plain => "plain", Language::Markdown => "md" } }
 
-/// identity of a lint for ignoring purposes (see C14): message, kind, flagged text and the
+/// identity of a lint for ignoring purposes (see C14): message, kind, suggestions, flagged text and the
 /// tokens within two characters on either side
-fn ident(doc: &harper_core::Document, s: usize, e: usize, msg: &str, kind: &str) -> String {
+fn ident(doc: &harper_core::Document, s: usize, e: usize, msg: &str, kind: &str, sugg: &str) -> String {
     let src = doc.get_source();
     let (s, e) = (s.min(src.len()), e.min(src.len()));
     let tok_texts = |a: usize, b: usize| -> Vec<String> {
@@ -29,7 +29,7 @@ fn ident(doc: &harper_core::Document, s: usize, e: usize, msg: &str, kind: &str)
         doc.get_tokens().iter().filter(|t| t.span.start < b && a < t.span.end && t.span.end > t.span.start)
             .map(|t| src[t.span.start..t.span.end.min(src.len())].iter().collect::<String>()).collect()
     };
-    crate::util::digest(&format!("{msg}|{kind}|{}|{:?}|{:?}", src[s..e.max(s)].iter().collect::<String>(),
+    crate::util::digest(&format!("{msg}|{kind}|{sugg}|{}|{:?}|{:?}", src[s..e.max(s)].iter().collect::<String>(),
         tok_texts(s.saturating_sub(2), s), tok_texts(e, (e + 2).min(src.len()))))
 }
 
@@ -44,7 +44,8 @@ fn lint_keys(l: &mut Linter, text: &str, lang: Language) -> Vec<Value> {
         let sp = x.span();
         let slice: String = if sp.start <= sp.end && sp.end <= chars.len() { chars[sp.start..sp.end].iter().collect() } else { "\u{0}OUT-OF-RANGE".into() };
         json!({"s": sp.start, "e": sp.end, "problem": x.get_problem_text(), "slice": slice, "msg": x.message(), "kind": x.lint_kind(), "nsugg": x.suggestion_count(),
-            "ident": ident(&doc, sp.start, sp.end, &x.message(), &x.lint_kind())})
+            "ident": ident(&doc, sp.start, sp.end, &x.message(), &x.lint_kind(),
+                &x.suggestions().iter().map(|g| format!("{}:{}", match g.kind() { harper_wasm::SuggestionKind::Replace => "R", harper_wasm::SuggestionKind::Remove => "D", harper_wasm::SuggestionKind::InsertAfter => "I" }, g.get_replacement_text())).collect::<Vec<_>>().join(","))})
     }).collect()
 }
 
@@ -70,6 +71,7 @@ fn session(ops: &[Value], dialect: Dialect, extra_texts: &[String], rng: &mut Rn
     let r = catch(|| {
         let mut out = Vec::new();
         let mut l = Linter::new(dialect);
+        let mut saved: Option<String> = None;
         let mut probes: Vec<(String, Language)> = vec![(format!("{FOO}."), Language::Plain), (format!("{FOOCAP} {FOO}."), Language::Plain),
             (format!("{BAR} {FOO}."), Language::Markdown), (format!("A {FOOCAP} and *{BAR}*."), Language::Markdown)];
         for t in extra_texts { probes.push((t.clone(), if rng.chance(1, 2) { Language::Plain } else { Language::Markdown })); }
@@ -98,6 +100,20 @@ fn session(ops: &[Value], dialect: Dialect, extra_texts: &[String], rng: &mut Rn
                         out.push(lint_event(&mut l, &text, lang));
                     }
                 }
+                "export_ignored" => {
+                    saved = Some(l.export_ignored_lints());
+                    out.push(json!({"ev": "ExportIgnored"}));
+                }
+                "clear_ignored" => {
+                    l.clear_ignored_lints();
+                    out.push(json!({"ev": "ClearIgnored"}));
+                }
+                "import_ignored" => {
+                    // import appends to what is there; nothing exported yet: an empty list
+                    let j = saved.clone().unwrap_or_else(|| Linter::new(dialect).export_ignored_lints());
+                    let ok = l.import_ignored_lints(j).is_ok();
+                    out.push(json!({"ev": "ImportIgnored", "ok": ok}));
+                }
                 "ignored_roundtrip" => {
                     let j = l.export_ignored_lints();
                     l.clear_ignored_lints();
@@ -105,7 +121,7 @@ fn session(ops: &[Value], dialect: Dialect, extra_texts: &[String], rng: &mut Rn
                     out.push(json!({"ev": "IgnoredRoundTrip", "ok": ok}));
                 }
                 "lint" => {
-                    let text = op["text"].as_str().unwrap().to_string();
+                    let text = match &op["text"] { Value::String(s) => s.clone(), v => text_of(v) };
                     let lang = if op["lang"] == "md" { Language::Markdown } else { Language::Plain };
                     out.push(lint_event(&mut l, &text, lang));
                     // apply every suggestion of the first few lints through the API; JSON round trips
@@ -164,7 +180,8 @@ pub fn main(a: &Args) {
         for _ in 0..rng.range(3, 8) {
             let t = rng.pick(&texts[..]).clone();
             let lang = if rng.chance(1, 2) { "md" } else { "plain" };
-            match rng.below(8) {
+            match rng.below(9) {
+                8 => { let o = ["export_ignored", "clear_ignored", "import_ignored"][rng.below(3)]; ops.push(json!({"op": o})) }
                 0 | 1 | 2 => ops.push(json!({"op": "lint", "text": t, "lang": lang})),
                 3 | 4 => ops.push(json!({"op": "ignore", "text": t, "lang": lang, "at": rng.below(5)})),
                 5 => {
@@ -176,11 +193,25 @@ pub fn main(a: &Args) {
                         ops.push(json!({"op": "import", "words": v}));
                     }
                 }
-                6 => ops.push(json!({"op": "ignored_roundtrip"})),
+                6 => { let o = ["ignored_roundtrip", "export_ignored", "clear_ignored", "import_ignored"][rng.below(4)]; ops.push(json!({"op": o})) }
                 _ => ops.push(json!({"op": "config", "json": format!("{{\"SpellCheck\": {}, \"SentenceCapitalization\": {}}}", rng.chance(3, 4), rng.chance(1, 2))})),
             }
         }
-        sessions.push((ops, i % 4, texts, rng.next()));
+        sessions.push((ops, i % 4, texts.clone(), rng.next()));
+        // the ignore list taken apart: ignore, export, clear, look, import, look again (and variations)
+        if i % 5 == 0 {
+            let t = texts[0].clone();
+            let lang = if i % 2 == 0 { "md" } else { "plain" };
+            let look = json!({"op": "lint", "text": t, "lang": lang});
+            let ign = |k: usize| json!({"op": "ignore", "text": t, "lang": lang, "at": k});
+            let o = |s: &str| json!({"op": s});
+            let seqs = [
+                vec![ign(1), o("export_ignored"), o("clear_ignored"), look.clone(), o("import_ignored"), look.clone()],
+                vec![ign(1), ign(2), o("export_ignored"), look.clone(), o("clear_ignored"), look.clone(), o("import_ignored"), look.clone(), o("import_ignored"), look.clone()],
+                vec![ign(2), o("export_ignored"), o("clear_ignored"), ign(1), look.clone(), o("import_ignored"), look.clone()],
+            ];
+            sessions.push((seqs[(i / 5) % 3].clone(), i % 4, texts.clone(), rng.next()));
+        }
     }
     let evs = par_map(sessions.len(), a.num("threads", 8) as usize, |_| (), |_, i| {
         let (ops, d, extra, s) = &sessions[i];
